@@ -4331,4 +4331,105 @@ example : (parseRecipe (α := Rat) C07_coreEnv ">> source: grandma\n\nUse @{1/0}
     [⟨.error, .parse, "empty-name:ingredient", [⟨25, 25⟩]⟩, ⟨.error, .parse, "division-by-zero", [⟨26, 29⟩]⟩] := by
   decide +kernel
 
+
+/-! ### The intermediate-reference syntax errors planted in a document (wave 10) -/
+
+/-- the events of `@&( inner )name{}` whose group is rejected with `ev` (a function of the ACTUAL `(`, inner tokens,
+    `)`): exactly that event, then the ingredient with the `&` flag and no intermediate data -/
+def C07_interF (T A : List Tok) (ev : Tok → List Tok → Tok → Ev α) :
+    Tok → Tok → Tok → List Tok → Tok → List Tok → Tok → List Tok → Tok → List (Ev α) → Prop :=
+  fun tm tand top inner tcp nameT tob Q tcb evs =>
+    evs = [ev top inner tcp, C07_interIngr T A tm tand top inner tcp nameT tob Q tcb]
+
+/-- the first / second non-blank token of the actual group -/
+def C07_nb0 (inner : List Tok) : Tok := (inner.filter nonBlankTok).head?.getD dummyTok
+def C07_nb1 (inner : List Tok) : Tok := ((inner.filter nonBlankTok).drop 1).head?.getD dummyTok
+
+/-- **Instance: the intermediate-reference syntax errors planted in a document** (`@&()x{}`, `@&(~=1)x{}`,
+    `@&(99999)x{}`, `@&(-1)x{}`, `@&(x)y{}`; COMPONENT_MODIFIERS and INTERMEDIATE_PREPARATIONS on).  The construct is
+    given by SPECIFICATION tokens `@ & ( innerS ) nameS { QS }` (`PlShapeI` on them; a name showing a non-blank
+    character in a plain token, no alias separator, blank braces, not followed by `(`).  On every actual block
+    spelling the step the construct is a piece whose events are EXACTLY one error (error, parse), then the ingredient
+    with the `&` flag and no intermediate data on the byte range of the construct (`c07v_interSpec … C07_interF`):
+    * generic: whatever event `ev top inner tcp` the data reader pushes on rejecting EVERY group spelling the
+      specified one;
+    * `fS` = the non-blank tokens of `innerS`: `fS = []` ⇒ `inter-ref-empty` (the actual group `( … )`);
+      `fS = [~, =, int]` ⇒ `inter-ref-wrong-order` (the actual `~` and `=`); `fS = [int]` above 32767 ⇒ `int-parse`
+      (the actual number); `fS = [±, int]` ⇒ `inter-ref-sign` (the actual sign); `fS = [x]`, `x` not an integer ⇒
+      `inter-ref-invalid` (the span of the actual inner tokens).  Labels are byte offsets of the document.
+    PARTIAL exactly as `C07_planted_inter_ref_family_partial`: the group ALONE, no quantity, ingredient only; missing:
+    plain modifiers around the group, a quantity, `inter-ref-not-allowed:cookware`. -/
+theorem C07_planted_document_inter_ref_family_partial (env : Env) (pre post : List SegX) (tmS tandS topS : Tok)
+    (innerS : List Tok) (tcpS : Tok) (nameS : List Tok) (tobS : Tok) (QS : List Tok) (tcbS : Tok)
+    (sh : PlShapeI env.ext .at tmS [] tandS topS innerS tcpS [] nameS tobS QS tcbS (post.flatMap SegX.spell))
+    (hQ : ∀ t ∈ QS, isPadK t = true)
+    (halias : env.ext.has Gen.EXT_COMPONENT_ALIAS = false ∨ ∀ t ∈ nameS, t.kind ≠ .or)
+    (hname : ∃ t ∈ nameS, plainKind t.kind = true ∧ NBs env.cs t.text)
+    (T tpre tB tpost : List Tok) (hT : T = tpre ++ (tB ++ tpost))
+    (hsB : Spells tB (c07p_comp tmS (c07i_mods [] tandS topS innerS tcpS []) nameS tobS QS tcbS))
+    (hpost : Spells tpost (post.flatMap SegX.spell)) (hrun : RunAt (baseOff T) T) :
+    (∀ ev : Tok → List Tok → Tok → Ev α,
+      (∀ (top : Tok) (inner : List Tok) (tcp : Tok), top.kind = .openParen → tcp.kind = .closeParen →
+        (∀ t ∈ inner, t.kind ≠ .closeParen) → Spells inner innerS → ∀ s0 : BP α,
+        parseInterRef (α := α) (top :: (inner ++ tcp :: [])) s0 =
+          ((none, []), { s0 with evs := s0.evs.push (ev top inner tcp) })) →
+      PlPieceAt (α := α) T env.cs env.ext tpre ⟨tB, c07v_interSpec innerS nameS QS tB (C07_interF T tpre ev)⟩) ∧
+    (innerS.filter nonBlankTok = [] →
+      PlPieceAt (α := α) T env.cs env.ext tpre ⟨tB, c07v_interSpec innerS nameS QS tB (C07_interF T tpre
+        (fun top inner tcp => .error ⟨.error, .parse, "inter-ref-empty", [tokensSpan (top :: (inner ++ [tcp]))]⟩))⟩) ∧
+    (∀ a b i, innerS.filter nonBlankTok = [a, b, i] → a.kind = .tilde → b.kind = .eq → i.kind = .int →
+      PlPieceAt (α := α) T env.cs env.ext tpre ⟨tB, c07v_interSpec innerS nameS QS tB (C07_interF T tpre
+        (fun _ inner _ => .error ⟨.error, .parse, "inter-ref-wrong-order",
+          [⟨(C07_nb0 inner).start, (C07_nb0 inner).stop⟩, ⟨(C07_nb1 inner).start, (C07_nb1 inner).stop⟩]⟩))⟩) ∧
+    (∀ i, innerS.filter nonBlankTok = [i] → i.kind = .int → 32767 < digitsToNat i.text →
+      PlPieceAt (α := α) T env.cs env.ext tpre ⟨tB, c07v_interSpec innerS nameS QS tB (C07_interF T tpre
+        (fun _ inner _ => .error ⟨.error, .parse, "int-parse", [⟨(C07_nb0 inner).start, (C07_nb0 inner).stop⟩]⟩))⟩) ∧
+    (∀ sg i, innerS.filter nonBlankTok = [sg, i] → (sg.kind = .minus ∨ sg.kind = .plus) → i.kind = .int →
+      PlPieceAt (α := α) T env.cs env.ext tpre ⟨tB, c07v_interSpec innerS nameS QS tB (C07_interF T tpre
+        (fun _ inner _ => .error ⟨.error, .parse, "inter-ref-sign",
+          [⟨(C07_nb0 inner).start, (C07_nb0 inner).stop⟩]⟩))⟩) ∧
+    (∀ x, innerS.filter nonBlankTok = [x] → x.kind ≠ .int →
+      PlPieceAt (α := α) T env.cs env.ext tpre ⟨tB, c07v_interSpec innerS nameS QS tB (C07_interF T tpre
+        (fun _ inner _ => .error ⟨.error, .parse, "inter-ref-invalid", [tokensSpan inner]⟩))⟩) := by
+  obtain ⟨tm, tand, top, inner, tcp, nameT, tob, Q, tcb, rfl, ki, k3, k5, sh'⟩ := c07v_inter_spells_inv sh hsB hpost
+  have hw : WF T := ⟨by rw [hT]; simp [c07p_comp], hrun⟩
+  have hf := c07v_filter_transfer ki
+  have g : ∀ ev : Tok → List Tok → Tok → Ev α,
+      (∀ s0 : BP α, parseInterRef (α := α) (top :: (inner ++ tcp :: [])) s0 =
+        ((none, []), { s0 with evs := s0.evs.push (ev top inner tcp) })) →
+      PlPieceAt (α := α) T env.cs env.ext tpre ⟨c07p_comp tm (c07i_mods [] tand top inner tcp []) nameT tob Q tcb,
+        c07v_interSpec innerS nameS QS (c07p_comp tm (c07i_mods [] tand top inner tcp []) nameT tob Q tcb)
+          (C07_interF T tpre ev)⟩ := fun ev hev =>
+    ((C07_planted_inter_ref_family_partial (α := α) T tpre tpost env.cs env.ext hw tm tand top inner tcp nameT tob Q
+      tcb hT sh' (c07v_pad_transfer k5 hQ) (c07x_alias_transfer k3 halias) (c07x_name_transfer k3 hname _)).1
+      (ev top inner tcp) hev).mono
+      (fun evs he => ⟨tm, tand, top, inner, tcp, nameT, tob, Q, tcb, rfl, sh'.hop, sh'.hcp, ki, k3, k5, he⟩)
+  refine ⟨fun ev hev => g ev (hev top inner tcp sh'.hop sh'.hcp sh'.hin ki), fun h => ?_, fun a b i h h1 h2 h3 => ?_,
+    fun i h h1 h2 => ?_, fun sg i h h1 h2 => ?_, fun x h h1 => ?_⟩
+  · rw [h] at hf
+    exact g _ (fun s0 => parseInterRef_empty top tcp inner [] s0 sh'.hop sh'.hcp sh'.hin hf.nil_inv)
+  · rw [h] at hf
+    obtain ⟨a', r1, e1, ka, -, hf1⟩ := hf.cons_inv
+    obtain ⟨b', r2, rfl, kb, -, hf2⟩ := hf1.cons_inv
+    obtain ⟨i', rfl, ki', -⟩ := hf2.single_inv
+    refine g _ (fun s0 => ?_)
+    simp only [C07_nb0, C07_nb1, e1, List.head?_cons, Option.getD_some, List.drop_succ_cons, List.drop_zero]
+    exact parseInterRef_wrong_order (α := α) top tcp inner [] s0 sh'.hop sh'.hcp sh'.hin a' b' i' e1 (ka.trans h1)
+      (kb.trans h2) (ki'.trans h3)
+  · rw [h] at hf
+    obtain ⟨i', e1, ki', ti⟩ := hf.single_inv
+    refine g _ (fun s0 => ?_)
+    simp only [C07_nb0, e1, List.head?_cons, Option.getD_some]
+    exact parseInterRef_too_large top tcp inner [] s0 sh'.hop sh'.hcp sh'.hin i' e1 (ki'.trans h1) (by rw [ti]; exact h2)
+  · rw [h] at hf
+    obtain ⟨sg', r1, e1, ks, -, hf1⟩ := hf.cons_inv
+    obtain ⟨i', rfl, ki', -⟩ := hf1.single_inv
+    refine g _ (fun s0 => ?_)
+    simp only [C07_nb0, e1, List.head?_cons, Option.getD_some]
+    exact parseInterRef_signed top tcp inner [] s0 sh'.hop sh'.hcp sh'.hin sg' i' e1 (by rw [ks]; exact h1)
+      (ki'.trans h2)
+  · rw [h] at hf
+    obtain ⟨x', e1, kx, -⟩ := hf.single_inv
+    exact g _ (fun s0 => parseInterRef_invalid top tcp inner [] s0 sh'.hop sh'.hcp sh'.hin x' e1 (by rw [kx]; exact h1))
+
 end Cook
